@@ -733,10 +733,10 @@ def run(prog, rep, tier, repo):
         direct = {short(c.path) for c in g.calls() if c.path}
         if ok:
             rep.ok('inference', key, 'predict = inv_link(X.coef [+ offsets])')
-        elif 'inv_link' in direct and 'matmul' in direct and 'vadd' in direct:
+        elif 'inv_link' in direct and 'matmul' in direct and not any(c.path and c.path in pdb.bodies and c.path.startswith(G + '::') and short(c.path) not in ('coef',) for c in g.calls()):
             rep.viol('inference', key, 'predict is not the inverse link of X.coef plus offsets', site_of(g.body))
         else:
-            rep.undecided('inference', key, 'predict does not call inv_link, matmul and vadd in its own body (calls: %s): not read' % sorted(direct)[:6], site_of(g.body), proof=False)
+            rep.undecided('inference', key, 'predict delegates part of its work to another method of GLM (calls: %s): not read' % sorted(direct)[:6], site_of(g.body), proof=False)
     rep.floor('inference', 4, 'dispersion, covariance, standard error, predict')
 
     # ------------------------------------------------------------------ D6 stride
